@@ -385,7 +385,7 @@ def run(tier, seed):
             break
     nsim = 25 if tier == "quick" else 400
     rs = common.run_tlc("MC_Parameters", "MC_ParametersSim.cfg", wd, workers=8, timeout=2400,
-                        simulate="num=%d" % nsim, extra=["-depth", "26", "-seed", str(seed + 11)])
+                        simulate="num=%d" % nsim, extra=["-depth", "52", "-seed", str(seed + 11)])
     for x in rs.records:
         nb += 1
         replay_behaviour(x, wd, v, "simulation")
